@@ -10,10 +10,22 @@ BUILD = os.path.join(VERIF, "build")
 JOBS = str(min(16, os.cpu_count() or 4))
 
 
+MEM_LIMIT = 24 * 2 ** 30     # address-space limit for every child (coqc, make, ocaml): a runaway proof term must not
+                             # take the machine down; a file that needs more fails its build instead
+
+
+def _limits():
+    import resource
+    try:
+        resource.setrlimit(resource.RLIMIT_AS, (MEM_LIMIT, MEM_LIMIT))
+    except Exception:  # noqa
+        pass
+
+
 def run(cmd, cwd=None, timeout=3600):
     t0 = time.time()
     p = subprocess.run(cmd, cwd=cwd, shell=isinstance(cmd, str), stdout=subprocess.PIPE,
-                       stderr=subprocess.STDOUT, text=True, timeout=timeout)
+                       stderr=subprocess.STDOUT, text=True, timeout=timeout, preexec_fn=_limits)
     return p.returncode, p.stdout, time.time() - t0
 
 
